@@ -14,7 +14,7 @@ a transaction (`tx=` thread:mode:depth:overlay size).  Keys are numbered `100 * 
     txset <thread> <k> <v>
     txend <thread> <c|r>
     attempt <t>
-    leave <t> <n|e|c|g>
+    leave <t> <n|e|c|g|x:ClassName>
     giveup <t>
     tick <dt>
     funlock <key> <n>
@@ -29,9 +29,30 @@ structure St where
   ids  : List Nat
   ths  : List Nat
 
+def parseExc (name : String) : ExcClass :=
+  if name = "CacheError" then .cacheError
+  else if name = "BackendNotAvailableError" then .backendNotAvailable
+  else if name = "NotConfiguredError" then .notConfigured
+  else if name = "UnsupportedPicklerError" then .unsupportedPickler
+  else if name = "UnSecureDataError" then .unSecureData
+  else if name = "SignIsMissingError" then .signIsMissing
+  else if name = "WrongKeyError" then .wrongKey
+  else if name = "TagNotRegisteredError" then .tagNotRegistered
+  else if name = "LockedError" then .locked
+  else if name = "CacheBackendInteractionError" then .backendInteraction
+  else if name = "RateLimitError" then .rateLimit
+  else if name = "CircuitBreakerOpen" then .circuitBreakerOpen
+  else if name = "BaseException" then .baseException
+  else if name = "user" then .user
+  else .other
+
+/-- `n` normal, `e` an exception of the application, `x:<ClassName>` an exception of that class, `c` cancellation,
+`g` GeneratorExit at a yield point -/
 def parseHow? (s : String) : Option How :=
-  if s = "n" then some .normal else if s = "e" then some .exc else if s = "c" then some .cancel
-  else if s = "g" then some .closed else none
+  if s = "n" then some .normal else if s = "e" then some (.exc .user) else if s = "c" then some .cancel
+  else if s = "g" then some .closed
+  else if s.startsWith "x:" then some (.exc (parseExc (s.drop 2).toString))
+  else none
 
 def parseWait? (s : String) : Option Bool :=
   if s = "w" then some true else if s = "n" then some false else none
